@@ -144,6 +144,10 @@ func fillHistEvidence(cfg *RunCfg, ev *Evidence, cov *Cov) {
 	ev.Coverage["distinct_states"] = int64(cov.SetSize("state"))
 	ev.Coverage["distinct_nontrivial_states"] = int64(cov.SetSize("state_nontrivial"))
 	ev.Coverage["open_option_combinations"] = int64(cov.SetSize("open_opts"))
+	ev.Coverage["reopens_without_read"] = cov.Get("reopen_without_read")
+	ev.Coverage["reopens_on_crash_image_inside_delete"] = cov.Get("reopen_on_crash_image_inside_delete")
+	ev.Coverage["crash_image_temp_file_counts"] = cov.SetMembers("crash_image_temp_files", 6)
+	ev.Coverage["multi_pass_calls_stopped_by_backoff"] = cov.Get("multi_stopped")
 	ev.Coverage["samples"] = cov.Samples()
 	for k, v := range cov.Counts("c1") {
 		ev.Coverage["c1"+k] = v
